@@ -76,6 +76,9 @@ type Conn struct {
 	// one, which the library's retry loop explicitly caters for.
 	TransientFor time.Duration
 	gapEnd       time.Duration
+	// ZeroNil are stream offsets (ascending) at which ONE Read returns (0, nil): "nothing happened", which the
+	// io.Reader contract allows (and discourages); the stream goes on.
+	ZeroNil []int
 	consumed     int
 	// PeerStalled: the peer has stopped reading. Writes still succeed while fewer than SendWindow bytes are
 	// unread (socket buffers), then they block.
@@ -293,6 +296,9 @@ func (n *Net) readReady(t *Task) bool {
 	if len(c.Transients) > 0 && c.Transients[0] <= c.consumed {
 		return true
 	}
+	if len(c.ZeroNil) > 0 && c.ZeroNil[0] <= c.consumed {
+		return true
+	}
 	switch c.term {
 	case TermNone:
 		return false
@@ -357,6 +363,11 @@ func (n *Net) grantRead(t *Task) string {
 		t.resp.err = io.EOF
 		return "EOF (for a while)"
 	}
+	if len(c.ZeroNil) > 0 && c.ZeroNil[0] <= c.consumed {
+		c.ZeroNil = c.ZeroNil[1:]
+		n.s.Fault("read-returns-zero-nil")
+		return "0, nil"
+	}
 	if len(c.Transients) > 0 && c.Transients[0] <= c.consumed {
 		// a transient failure: this one Read fails, the stream goes on afterwards
 		c.Transients = c.Transients[1:]
@@ -375,6 +386,9 @@ func (n *Net) grantRead(t *Task) string {
 		}
 		if len(c.Transients) > 0 && c.consumed+k > c.Transients[0] {
 			k = c.Transients[0] - c.consumed
+		}
+		if len(c.ZeroNil) > 0 && c.consumed+k > c.ZeroNil[0] && c.ZeroNil[0] > c.consumed {
+			k = c.ZeroNil[0] - c.consumed
 		}
 		if c.readIdx < len(c.ReadSizes) {
 			if sz := c.ReadSizes[c.readIdx]; sz > 0 && sz < k {
